@@ -12,6 +12,7 @@ import (
 	"strconv"
 	"strings"
 	"sync"
+	"sync/atomic"
 	"syscall"
 	"time"
 )
@@ -120,7 +121,10 @@ type WorkerSpec struct {
 	WallLimit   time.Duration
 	StallCPU    float64 // CPU-seconds without progress that mean non-termination (default 20)
 	PerShardEnv func(shard int) []string
+	callID      int64
 }
+
+var workerCalls atomic.Int64
 
 // Death describes a worker that did not finish.
 type Death struct {
@@ -148,6 +152,7 @@ func (c *Ctx) RunWorkers(spec WorkerSpec) (*ShardResult, []Death) {
 	if spec.Parallel <= 0 {
 		spec.Parallel = c.NCPU
 	}
+	spec.callID = workerCalls.Add(1)
 	if spec.StallCPU == 0 {
 		spec.StallCPU = 20
 	}
@@ -205,7 +210,7 @@ func (c *Ctx) runShard(spec WorkerSpec, sh int) (*ShardResult, []Death) {
 }
 
 func (c *Ctx) runWorkerOnce(spec WorkerSpec, sh, attempt, startBlock int, careful bool, skip []string) runOutcome {
-	dir := filepath.Join(c.Scratch, "w", spec.Sub)
+	dir := filepath.Join(c.Scratch, "w", fmt.Sprintf("%s.%d", spec.Sub, spec.callID))
 	_ = os.MkdirAll(dir, 0o755)
 	base := filepath.Join(dir, fmt.Sprintf("s%03d.a%d", sh, attempt))
 	wlog, wout, werr := base+".log", base+".json", base+".err"
